@@ -4,7 +4,7 @@ import os
 
 import vlib
 
-PROPS = ['Rangers.Props.C02', 'Rangers.Props.C02Facts', 'Rangers.Props.C02Live', 'Rangers.Props.C02Iter']
+PROPS = ['Rangers.Props.C02', 'Rangers.Props.C02Facts', 'Rangers.Props.C02Live', 'Rangers.Props.C02Iter', 'Rangers.Props.C02Ndb']
 DRIVERS = ['C02']
 META = dict(
     level='proof',
